@@ -38,7 +38,8 @@ CONSTANTS Mode,       \* "ml" | "kv" | "reidx" | "pat"
           BuggyY,     \* _matvec output allocated with len(x) entries (today's code)
           RunLoop,    \* run the odometer machine on complete structures
           DoEmit,     \* emit CASE/KV/REIDX/PAT records
-          Subsets,    \* "perm" | "all" | "sample": row/column subsets per structure
+          Subsets,    \* "perm" | "all" | "sample" | "few": row/column subsets per structure
+          Perms,      \* "all" (every permutation for L <= 3, four beyond) | "few" (reversal only)
           Part, NParts, \* split of the structure space by the first-level pattern
           Seed
 
@@ -260,12 +261,15 @@ SubsetSeqs(n, h) ==      \* set of sequences over 0..n-1 without repetitions
          {s \in UNION {[1..q -> 0..(n - 1)] : q \in 0..n} : \A a, b \in DOMAIN s : a # b => s[a] # s[b]}
     [] Subsets = "all" ->
          {Variant(AscSeq({r \in 0..(n - 1) : Bit(mask, r) = 1}), (mask + h) % 3) : mask \in 0..(Pow2[n + 1] - 1)}
+    [] Subsets = "few" ->
+         {<<>>, Variant(AscSeq({r \in 0..(n - 1) : (((r * 3) + h) % 7) < 4}), h % 3)}
     [] OTHER ->
          {<<>>, [t \in 1..n |-> t - 1], [t \in 1..n |-> n - t]}
          \cup {Variant(AscSeq({r \in 0..(n - 1) : (((r * ((2 * a) + 1)) + h + a) % 7) < 3}), (h + a) % 3) : a \in 0..2}
 
 PermSet(n, h) ==
-  IF n <= 3 THEN Permutations(1..n)
+  IF Perms = "few" THEN {[j \in 1..n |-> n + 1 - j]}
+  ELSE IF n <= 3 THEN Permutations(1..n)
   ELSE {[j \in 1..n |-> n + 1 - j], [j \in 1..n |-> (j % n) + 1],
         [j \in 1..n |-> IF j = 1 THEN n ELSE IF j = n THEN 1 ELSE j],
         [j \in 1..n |-> IF j = (h % (n - 1)) + 1 THEN j + 1 ELSE IF j = (h % (n - 1)) + 2 THEN j - 1 ELSE j]}
